@@ -46,6 +46,8 @@ Judge_sl_rt(c) ==
   ELSE IF \E k \in 1..Len(c.writes) : ~c.writes[k].ok
        THEN LET k == CHOOSE k \in 1..Len(c.writes) : ~c.writes[k].ok IN
             IF Conforms(P.t, c.data[k], P.st.names, OptsOf(c))
-            THEN << Cl("C02.bytes", "fail"), Cl("C01.value", "fail") >> ELSE << Cl("H.conforms", "fail") >>
+            THEN << Cl("C02.bytes", "fail"), Cl("C01.value", "fail"),
+                    IF "c16" \in DOMAIN c THEN Cl("C16.in_union", "fail") ELSE Cl("C16.in_union", "skip") >>
+            ELSE << Cl("H.conforms", "fail") >>
   ELSE Concat([k \in 1..Len(c.data) |-> JudgeRtOne(c, P, k)])
 =============================================================================
